@@ -155,7 +155,7 @@ class BpHarness:
             agent._config.integrity_include_chain = bool(pki_cfg.get('include_chain', True))
             ctx._config = agent._config
             if pki_cfg.get('sign'):
-                ctx._cert_chain = [mat['end_cert']]
+                ctx._cert_chain = [mat[{'other-id': 'end_cert_other', 'no-id': 'end_cert_noid'}.get(pki_cfg.get('cert'), 'end_cert')]]
                 cose_key = ctx.extract_cose_key(mat['end_key'])
                 cose_key.kid = b'PEM'
                 cose_key.key_ops = [keyops.SignOp]
